@@ -711,3 +711,143 @@ pub fn alpha_table(ctx: &mut crate::Ctx, case: &Value, out: &mut Map<String, Val
     out.insert("atab".into(), json!(atab));
     out.insert("amulti".into(), json!(amulti.values().collect::<Vec<_>>()));
 }
+
+// ---------------------------------------------------------------- row iterators of the view traits (C13 mechanism)
+
+fn rows_json<'a, I: Iterator<Item = &'a [U16]>>(it: I, limit: usize) -> Value {
+    let rows: Vec<Value> = it
+        .take(limit)
+        .map(|row| json!(row.iter().map(|p| p.0 as i64).collect::<Vec<i64>>()))
+        .collect();
+    json!(rows)
+}
+
+fn observe_rows<V: ImageView<Pixel = U16>>(v: &V, calls: &[Value]) -> Vec<Value> {
+    let mut out = vec![];
+    for c in calls {
+        let m = c["m"].as_str().unwrap();
+        let o = match m {
+            "iter_rows" => rows_json(v.iter_rows(u32_of(&c["start"])), 64),
+            "iter_2_rows" => {
+                let g: Vec<Value> = v
+                    .iter_2_rows(u32_of(&c["start"]), u32_of(&c["max"]))
+                    .take(64)
+                    .map(|rs| json!(rs.iter().map(|row| row.iter().map(|p| p.0 as i64).collect::<Vec<i64>>()).collect::<Vec<_>>()))
+                    .collect();
+                json!(g)
+            }
+            "iter_4_rows" => {
+                let g: Vec<Value> = v
+                    .iter_4_rows(u32_of(&c["start"]), u32_of(&c["max"]))
+                    .take(64)
+                    .map(|rs| json!(rs.iter().map(|row| row.iter().map(|p| p.0 as i64).collect::<Vec<i64>>()).collect::<Vec<_>>()))
+                    .collect();
+                json!(g)
+            }
+            "step" => rows_json(
+                v.iter_rows_with_step(parse_f64(&c["y0"]), parse_f64(&c["step"]), u32_of(&c["max"])),
+                256,
+            ),
+            _ => panic!("harness: rows call {m}"),
+        };
+        out.push(o);
+    }
+    out
+}
+
+fn observe_rows_mut<V: ImageViewMut<Pixel = U16>>(v: &mut V, calls: &[Value]) -> Vec<Value> {
+    let mut out = vec![];
+    for c in calls {
+        let m = c["m"].as_str().unwrap();
+        let o = match m {
+            "iter_rows_mut" => {
+                let rows: Vec<Value> = v
+                    .iter_rows_mut(u32_of(&c["start"]))
+                    .take(64)
+                    .map(|row| json!(row.iter().map(|p| p.0 as i64).collect::<Vec<i64>>()))
+                    .collect();
+                json!(rows)
+            }
+            "iter_2_rows_mut" => {
+                let g: Vec<Value> = v
+                    .iter_2_rows_mut()
+                    .take(64)
+                    .map(|rs| json!(rs.iter().map(|row| row.iter().map(|p| p.0 as i64).collect::<Vec<i64>>()).collect::<Vec<_>>()))
+                    .collect();
+                json!(g)
+            }
+            "iter_4_rows_mut" => {
+                let g: Vec<Value> = v
+                    .iter_4_rows_mut()
+                    .take(64)
+                    .map(|rs| json!(rs.iter().map(|row| row.iter().map(|p| p.0 as i64).collect::<Vec<i64>>()).collect::<Vec<_>>()))
+                    .collect();
+                json!(g)
+            }
+            _ => json!(observe_rows(v, std::slice::from_ref(c))[0].clone()),
+        };
+        out.push(o);
+    }
+    out
+}
+
+/// Reads rows through the public iterators of ImageView / ImageViewMut for every container kind.
+pub fn rows(case: &Value, out: &mut Map<String, Value>) {
+    let kind = case["kind"].as_str().unwrap().to_string();
+    let pw = u32_of(&case["pw"]);
+    let ph = u32_of(&case["ph"]);
+    let vb: Vec<u32> = case["view"].as_array().unwrap().iter().map(u32_of).collect();
+    let ob: Vec<u32> = case
+        .get("outer")
+        .and_then(|o| o.as_array())
+        .map(|a| a.iter().map(u32_of).collect())
+        .unwrap_or_else(|| vec![0, 0, 0, 0]);
+    let calls: Vec<Value> = case["calls"].as_array().unwrap().clone();
+    let mut pixels = tag_parent(pw, ph);
+    let res = catch_unwind(AssertUnwindSafe(|| match kind.as_str() {
+        "typed" => {
+            let mut v = TypedImage::from_pixels_slice(pw, ph, &mut pixels).unwrap();
+            observe_rows_mut(&mut v, &calls)
+        }
+        "typed_ref" => {
+            let v = TypedImageRef::new(pw, ph, &pixels).unwrap();
+            observe_rows(&v, &calls)
+        }
+        "typed_crop" => {
+            let p = TypedImageRef::new(pw, ph, &pixels).unwrap();
+            let v = TypedCroppedImage::from_ref(&p, vb[0], vb[1], vb[2], vb[3]).expect("harness: crop");
+            observe_rows(&v, &calls)
+        }
+        "typed_crop_mut" => {
+            let mut p = TypedImage::from_pixels_slice(pw, ph, &mut pixels).unwrap();
+            let mut v = TypedCroppedImageMut::from_ref(&mut p, vb[0], vb[1], vb[2], vb[3]).expect("harness: crop");
+            observe_rows_mut(&mut v, &calls)
+        }
+        "nested" => {
+            let p = TypedImageRef::new(pw, ph, &pixels).unwrap();
+            let o = TypedCroppedImage::from_ref(&p, ob[0], ob[1], pw - ob[0] - ob[2], ph - ob[1] - ob[3]).expect("harness: outer");
+            let v = TypedCroppedImage::new(o, vb[0], vb[1], vb[2], vb[3]).expect("harness: inner");
+            observe_rows(&v, &calls)
+        }
+        "nested_mut" => {
+            let mut p = TypedImage::from_pixels_slice(pw, ph, &mut pixels).unwrap();
+            let o = TypedCroppedImageMut::from_ref(&mut p, ob[0], ob[1], pw - ob[0] - ob[2], ph - ob[1] - ob[3]).expect("harness: outer");
+            let mut v = TypedCroppedImageMut::new(o, vb[0], vb[1], vb[2], vb[3]).expect("harness: inner");
+            observe_rows_mut(&mut v, &calls)
+        }
+        k => panic!("harness: rows kind {k}"),
+    }));
+    match res {
+        Ok(r) => {
+            out.insert("ret".into(), json!("ok"));
+            out.insert("obs".into(), json!(r));
+        }
+        Err(e) => {
+            let m = panic_msg(e);
+            if m.starts_with("harness:") {
+                panic!("{}", m);
+            }
+            out.insert("ret".into(), json!(format!("panic:{}", m)));
+        }
+    }
+}
